@@ -106,3 +106,20 @@ package lossless
 //@   loop 0: invariant base(out) != base(pixels) && out != nil
 //@   loop 0: invariant n == dec.nextTransform - 1 ==> rows == pixels
 //@   callsite inverseTransform: assert (t.Type == ColorIndexingTransform && t.Bits > 0) ==> base(arg3) != base(arg4)
+//
+// ---- C11: a pooled lossless decoder starts from a clean state ----
+//
+// Every field of the Decoder is either reset to its zero value when the
+// decoder is taken from the pool, or it is scratch that the next decode
+// rewrites before reading: pixels / argbCache / transformBuf are re-sliced
+// and filled by decodeImageStream and applyInverseTransforms, transforms[i] is
+// written by readTransform before nextTransform (reset to 0) reaches i, the
+// Huffman scratch buffers and the pooled backing arrays are re-initialised by
+// readHuffmanCodes (entries are zeroed on reuse). A field added to the struct
+// without being classified here fails the coverage obligation.
+//@ func acquireDecoder
+//@   property C11
+//@   modifies *
+//@   ensures result != nil
+//@   resets result zero: br Width Height HasAlpha transformWidth nextTransform transformsSeen hdr recursionDepth \
+//@     scratch: pixels argbCache transformBuf transforms codeLengthsBuf huffScratch colorCacheBuf htreeGroupsBuf
